@@ -67,6 +67,12 @@ class Scope:
         for n in walk_local(fn):
             if isinstance(n, ast.Assign) and len(n.targets) == 1 and isinstance(n.targets[0], ast.Name) and counts.get(n.targets[0].id) == 1 and _scalar(n.value):
                 self.alias[n.targets[0].id] = n.value
+            # q, r = divmod(a, b)
+            if isinstance(n, ast.Assign) and len(n.targets) == 1 and isinstance(n.targets[0], ast.Tuple) and len(n.targets[0].elts) == 2 and all(isinstance(e, ast.Name) for e in n.targets[0].elts) \
+                    and isinstance(n.value, ast.Call) and flow.call_name(n.value) == "divmod" and len(n.value.args) == 2 and all(counts.get(e.id) == 1 for e in n.targets[0].elts):
+                a, b = n.value.args
+                self.alias[n.targets[0].elts[0].id] = ast.BinOp(_clone(a), ast.FloorDiv(), _clone(b))
+                self.alias[n.targets[0].elts[1].id] = ast.BinOp(_clone(a), ast.Mod(), _clone(b))
         self.cache = {}
 
     def subst(self, node, depth=4):
@@ -80,7 +86,54 @@ class Scope:
                 if isinstance(n.ctx, ast.Load) and n.id in sc.alias:
                     return sc.subst(sc.alias[n.id], depth - 1)
                 return n
+
+            def visit_Call(self, n):
+                self.generic_visit(n)
+                inl = sc.inline(n)
+                return inl if inl is not None else n
         return T().visit(_clone(node))
+
+    def inline(self, call):
+        """the value of a call of a one-expression helper (local def, module function or method of the same class whose body is
+        single-assignment temporaries and one return), written out with the arguments in place of the parameters"""
+        h = None
+        f = call.func
+        if isinstance(f, ast.Name):
+            h = self.helper(call)
+        elif isinstance(f, ast.Attribute) and isinstance(f.value, ast.Name) and f.value.id == "self":
+            p = self.fn
+            while p is not None and not isinstance(p, ast.ClassDef):
+                p = getattr(p, "_parent", None)
+            if p is not None:
+                for m in p.body:
+                    if isinstance(m, ast.FunctionDef) and m.name == f.attr:
+                        h = m
+        if h is None or call.keywords or h.args.vararg or h.args.kwarg or h.decorator_list:
+            return None
+        params = [a.arg for a in h.args.args]
+        if isinstance(f, ast.Attribute) and params[:1] == ["self"]:
+            params = params[1:]
+        if len(params) != len(call.args):
+            return None
+        body = [st for st in h.body if not (isinstance(st, ast.Expr) and isinstance(st.value, ast.Constant))]
+        if not body or not isinstance(body[-1], ast.Return) or body[-1].value is None:
+            return None
+        env = dict(zip(params, call.args))
+
+        def put(e):
+            class U(ast.NodeTransformer):
+                def visit_Name(self, n):
+                    if isinstance(n.ctx, ast.Load) and n.id in env:
+                        return _clone(env[n.id])
+                    return n
+            return U().visit(_clone(e))
+        for st in body[:-1]:
+            if not (isinstance(st, ast.Assign) and len(st.targets) == 1 and isinstance(st.targets[0], ast.Name) and _scalar(st.value)) or st.targets[0].id in env:
+                return None
+            env[st.targets[0].id] = put(st.value)
+        if not _scalar(body[-1].value):
+            return None
+        return put(body[-1].value)
 
     def text(self, node):
         return norm_text(self.subst(node))
@@ -151,9 +204,14 @@ def t_fold(sc, loop):
     if not (isinstance(t, ast.Compare) and len(t.ops) == 1 and isinstance(t.left, ast.Name) and isinstance(t.ops[0], (ast.Gt, ast.GtE)) and _const(t.comparators[0]) is not None):
         return None
     v, c = t.left.id, _const(t.comparators[0])
-    if len(loop.body) != 1 or not isinstance(loop.body[0], ast.Assign) or norm_text(loop.body[0].targets[0]) != v:
+    last = loop.body[-1]
+    if not isinstance(last, ast.Assign) or norm_text(last.targets[0]) != v:
         return None
-    e = sc.subst(loop.body[0].value)
+    for st in loop.body[:-1]:       # temporaries only (single-assignment names, substituted below)
+        names = [m.id for t_ in getattr(st, "targets", []) for m in ast.walk(t_) if isinstance(m, ast.Name)]
+        if not isinstance(st, ast.Assign) or not names or any(nm not in sc.alias for nm in names):
+            return None
+    e = sc.subst(last.value)
     if not (isinstance(e, ast.BinOp) and isinstance(e.op, ast.Add)):
         return None
     mask = shift = None
@@ -282,6 +340,33 @@ def t_scan(sc, loop):
     return None
 
 
+def t_countdown(sc, loop):
+    """while V > 0: ... V -= k      /   while V < N: ... V += k   (N not assigned in the loop)"""
+    for c in _conjuncts(loop.test):
+        if isinstance(c, ast.Compare) and len(c.ops) == 1 and isinstance(c.left, ast.Name):
+            v, opn, bound = c.left.id, c.ops[0], c.comparators[0]
+            down = isinstance(opn, (ast.Gt, ast.GtE))
+            up = isinstance(opn, (ast.Lt, ast.LtE))
+            if not (down or up):
+                continue
+            bound_names = {n.id for n in ast.walk(bound) if isinstance(n, ast.Name)}
+            if any(isinstance(n, ast.Name) and isinstance(n.ctx, ast.Store) and n.id in bound_names for b in loop.body for n in ast.walk(b)):
+                continue        # the bound moves too
+            if any(isinstance(n, ast.Call) for n in ast.walk(bound)):
+                continue
+
+            def base(n, v=v, down=down):
+                if isinstance(n, ast.AugAssign) and norm_text(n.target) == v and isinstance(n.op, ast.Sub if down else ast.Add) and (_const(n.value) or 0) > 0:
+                    return {"step"}
+                return set()
+            other_writes = [n for b in loop.body for n in ast.walk(b) if isinstance(n, ast.Name) and n.id == v and isinstance(n.ctx, ast.Store) and not (isinstance(n._parent, ast.AugAssign) and base(n._parent))]
+            pr, und = _verdict(sc, loop, flow.back_edge_facts(loop, sc.gen(base)), {"step"}, f"{v} does not move towards the bound on every iteration that continues")
+            if other_writes and not pr:
+                und = und or f"{v} is also assigned elsewhere in the loop"
+            return {"template": "counter", "variant": f"{v} moves by a positive constant towards the bound {norm_text(bound)} on every iteration that continues", "problems": pr, "undecided": und}
+    return None
+
+
 def t_stack(sc, loop):
     first = _conjuncts(loop.test)[0]
     if isinstance(first, ast.Name):
@@ -316,7 +401,7 @@ def t_parse(sc, loop):
     return {"template": "parse loop", "variant": "every iteration that continues has run a parser on ctx; a parser that matched has consumed input", "problems": pr, "undecided": und}
 
 
-TEMPLATES = (t_fold, t_trampoline, t_pad, t_index, t_scan, t_stack, t_parse)
+TEMPLATES = (t_fold, t_trampoline, t_pad, t_index, t_scan, t_countdown, t_stack, t_parse)
 
 
 def rule_G13(ck):
